@@ -345,4 +345,172 @@ theorem union_unsupported_deref (c : Ctx) (m : TraitMeta) (me : TraitId) (hk : c
   simp only [hk]
   exact not_ok_identOrPanic m _
 
+/-! ### designation: missing or duplicated markers are refused (Deref / DerefMut) -/
+
+/-- How many of the fields carry the marker. -/
+def markedCount (g : Field → Res Bool) (fs : List Field) : Nat :=
+  (fs.filter fun f => match g f with | .ok true => true | _ => false).length
+
+/-- The loop's result when every field's attribute is well-formed: none for no marker, the marked field
+    for one, refusal for more. `acc` = what was found so far. -/
+theorem derefLoop_spec (g : Field → Res Bool) (hg : ∀ f, ∃ b, g f = .ok b) :
+    ∀ (fs : List Field) (i : Nat) (acc : Option (Nat × Field)),
+      (markedCount g fs = 0 → derefLoop g i fs acc = .ok acc) ∧
+      (acc.isSome = true → 0 < markedCount g fs → derefLoop g i fs acc = .diag .multipleDerefFields) ∧
+      (1 < markedCount g fs → derefLoop g i fs acc = .diag .multipleDerefFields) := by
+  intro fs
+  induction fs with
+  | nil => intro i acc; simp [markedCount, derefLoop]
+  | cons f rest ih =>
+    intro i acc
+    obtain ⟨b, hb⟩ := hg f
+    have ihs := fun i acc => ih i acc
+    cases b with
+    | false =>
+      have hc : markedCount g (f :: rest) = markedCount g rest := by simp [markedCount, List.filter_cons, hb]
+      simp only [derefLoop, hb, bind, hc]
+      exact ih (i + 1) acc
+    | true =>
+      have hc : markedCount g (f :: rest) = markedCount g rest + 1 := by simp [markedCount, List.filter_cons, hb]
+      simp only [derefLoop, hb, bind, hc]
+      refine ⟨by omega, ?_, ?_⟩
+      · intro hs _
+        cases acc with
+        | none => cases hs
+        | some a => rfl
+      · intro h1
+        cases acc with
+        | some a => rfl
+        | none =>
+          simp only []
+          exact (ih (i + 1) (some (i, f))).2.1 rfl (by omega)
+
+/-- **No marker among several fields: refused.** -/
+theorem deref_no_marker_refused (g : Field → Res Bool) (hg : ∀ f, ∃ b, g f = .ok b) (fs : List Field)
+    (hlen : fs.length ≠ 1) (h0 : markedCount g fs = 0) : derefPick g fs = .diag .noDerefField := by
+  unfold derefPick
+  split
+  · simp at hlen
+  · rw [(derefLoop_spec g hg fs 0 none).1 h0]; rfl
+
+/-- **Two or more markers: refused.** -/
+theorem deref_two_markers_refused (g : Field → Res Bool) (hg : ∀ f, ∃ b, g f = .ok b) (fs : List Field)
+    (h2 : 1 < markedCount g fs) : derefPick g fs = .diag .multipleDerefFields := by
+  unfold derefPick
+  split
+  · rename_i f
+    have : markedCount g [f] ≤ 1 := by unfold markedCount; exact Nat.le_trans (List.length_filter_le _ _) (by simp)
+    omega
+  · rw [(derefLoop_spec g hg fs 0 none).2.2 h2]; rfl
+
+/-! ### designation of the default variant (enums) and the default field (unions) -/
+
+def flaggedVariants (va : Bool → Variant → Res DefaultTypeAttr) (vs : List Variant) : Nat :=
+  (vs.filter fun v => match va true v with | .ok x => x.flag | _ => false).length
+
+theorem defaultVariantLoop_spec (fa : Bool → Bool → Field → Res (Field × DefaultFieldAttr)) (va : Bool → Variant → Res DefaultTypeAttr)
+    (hva : ∀ v, ∃ x, va true v = .ok x) (hfa : ∀ v : Variant, ∃ y, mapRes (fa false false) v.fields = .ok y) :
+    ∀ (vs : List Variant) (k : Nat) (acc : Option (Nat × Variant)),
+      (flaggedVariants va vs = 0 → defaultVariantLoop fa va k vs acc = .ok acc) ∧
+      (acc.isSome = true → 0 < flaggedVariants va vs → defaultVariantLoop fa va k vs acc = .diag .multipleDefaultVariants) ∧
+      (1 < flaggedVariants va vs → defaultVariantLoop fa va k vs acc = .diag .multipleDefaultVariants) := by
+  intro vs
+  induction vs with
+  | nil => intro k acc; simp [flaggedVariants, defaultVariantLoop]
+  | cons v rest ih =>
+    intro k acc
+    obtain ⟨x, hx⟩ := hva v
+    obtain ⟨y, hy⟩ := hfa v
+    cases hfl : x.flag with
+    | false =>
+      have hc : flaggedVariants va (v :: rest) = flaggedVariants va rest := by simp [flaggedVariants, hx, hfl]
+      simp only [defaultVariantLoop, hx, bind, hc, hfl, hy, Bool.false_eq_true, if_false]
+      exact ih (k + 1) acc
+    | true =>
+      have hc : flaggedVariants va (v :: rest) = flaggedVariants va rest + 1 := by simp [flaggedVariants, hx, hfl]
+      simp only [defaultVariantLoop, hx, bind, hc, hfl]
+      refine ⟨by omega, ?_, ?_⟩
+      · intro hs _
+        cases acc with
+        | none => cases hs
+        | some a => rfl
+      · intro h1
+        cases acc with
+        | some a => rfl
+        | none =>
+          simp only []
+          exact (ih (k + 1) (some (k, v))).2.1 rfl (by omega)
+
+/-- **An enum with several variants and no `#[educe(Default)]` variant: refused.** -/
+theorem default_no_variant_refused (fa : Bool → Bool → Field → Res (Field × DefaultFieldAttr)) (va : Bool → Variant → Res DefaultTypeAttr)
+    (hva : ∀ v, ∃ x, va true v = .ok x) (hfa : ∀ v : Variant, ∃ y, mapRes (fa false false) v.fields = .ok y) (vs : List Variant)
+    (hlen : vs.length ≠ 1) (h0 : flaggedVariants va vs = 0) : defaultPickVariant fa va vs = .diag .noDefaultVariant := by
+  unfold defaultPickVariant
+  split
+  · simp at hlen
+  · rw [(defaultVariantLoop_spec fa va hva hfa vs 0 none).1 h0]; rfl
+
+/-- **Two default variants: refused.** -/
+theorem default_two_variants_refused (fa : Bool → Bool → Field → Res (Field × DefaultFieldAttr)) (va : Bool → Variant → Res DefaultTypeAttr)
+    (hva : ∀ v, ∃ x, va true v = .ok x) (hfa : ∀ v : Variant, ∃ y, mapRes (fa false false) v.fields = .ok y) (vs : List Variant)
+    (h2 : 1 < flaggedVariants va vs) : defaultPickVariant fa va vs = .diag .multipleDefaultVariants := by
+  unfold defaultPickVariant
+  split
+  · rename_i v
+    have : flaggedVariants va [v] ≤ 1 := by unfold flaggedVariants; exact Nat.le_trans (List.length_filter_le _ _) (by simp)
+    omega
+  · rw [(defaultVariantLoop_spec fa va hva hfa vs 0 none).2.2 h2]; rfl
+
+def markedFields (fa : Bool → Bool → Field → Res (Field × DefaultFieldAttr)) (fs : List Field) : Nat :=
+  (fs.filter fun f => match fa true true f with | .ok p => p.2.flag || p.2.expression.isSome | _ => false).length
+
+theorem defaultFieldLoop_spec (fa : Bool → Bool → Field → Res (Field × DefaultFieldAttr)) (hfa : ∀ f, ∃ p, fa true true f = .ok p) :
+    ∀ (fs : List Field) (i : Nat) (acc : Option (Nat × Field × DefaultFieldAttr)),
+      (markedFields fa fs = 0 → defaultFieldLoop fa i fs acc = .ok acc) ∧
+      (acc.isSome = true → 0 < markedFields fa fs → defaultFieldLoop fa i fs acc = .diag .multipleDefaultFields) ∧
+      (1 < markedFields fa fs → defaultFieldLoop fa i fs acc = .diag .multipleDefaultFields) := by
+  intro fs
+  induction fs with
+  | nil => intro i acc; simp [markedFields, defaultFieldLoop]
+  | cons f rest ih =>
+    intro i acc
+    obtain ⟨p, hp⟩ := hfa f
+    obtain ⟨pf, pa⟩ := p
+    cases hfl : (pa.flag || pa.expression.isSome) with
+    | false =>
+      have hc : markedFields fa (f :: rest) = markedFields fa rest := by simp [markedFields, hp, hfl]
+      simp only [defaultFieldLoop, hp, bind, hc, hfl]
+      exact ih (i + 1) acc
+    | true =>
+      have hc : markedFields fa (f :: rest) = markedFields fa rest + 1 := by simp [markedFields, hp, hfl]
+      simp only [defaultFieldLoop, hp, bind, hc, hfl]
+      refine ⟨by omega, ?_, ?_⟩
+      · intro hs _
+        cases acc with
+        | none => cases hs
+        | some a => rfl
+      · intro h1
+        cases acc with
+        | some a => rfl
+        | none =>
+          simp only []
+          exact (ih (i + 1) (some (i, f, pa))).2.1 rfl (by omega)
+
+/-- **A union with several fields and none designated: refused; two designated: refused.** -/
+theorem default_union_no_field_refused (fa : Bool → Bool → Field → Res (Field × DefaultFieldAttr)) (hfa : ∀ f, ∃ p, fa true true f = .ok p)
+    (fs : List Field) (hlen : fs.length ≠ 1) (h0 : markedFields fa fs = 0) : defaultPickField fa fs = .diag .noDefaultField := by
+  unfold defaultPickField
+  split
+  · simp at hlen
+  · rw [(defaultFieldLoop_spec fa hfa fs 0 none).1 h0]; rfl
+
+theorem default_union_two_fields_refused (fa : Bool → Bool → Field → Res (Field × DefaultFieldAttr)) (hfa : ∀ f, ∃ p, fa true true f = .ok p)
+    (fs : List Field) (h2 : 1 < markedFields fa fs) : defaultPickField fa fs = .diag .multipleDefaultFields := by
+  unfold defaultPickField
+  split
+  · rename_i f
+    have : markedFields fa [f] ≤ 1 := by unfold markedFields; exact Nat.le_trans (List.length_filter_le _ _) (by simp)
+    omega
+  · rw [(defaultFieldLoop_spec fa hfa fs 0 none).2.2 h2]; rfl
+
 end Educe.Attr
